@@ -377,16 +377,17 @@ Definition numeric_key (E : env) (delegate : st -> tres (dval * st)) (s : st) : 
     else lift (error E s1 ExpectedNumericKey)
   end.
 
-(* MapKey::deserialize_bool *)
+(* MapKey::deserialize_bool: the byte after the quote is only peeked; `t` / `f` are eaten, anything else is left
+   for parse_str (so the whole key is described in the invalid_type error) *)
 Definition key_bool (E : env) (s : st) : tres (dval * st) :=
   let s0 := discard s in
-  let^ (o, s1) := next E s0 in
+  let^ (o, s1) := peek E s0 in
   match o with
   | None => lift (peek_error E s1 EofWhileParsingValue)
   | Some b =>
     fix_position E
-      (if b =? 116 then let^ s2 := parse_ident E lit_rue_q s1 in TOk (DBool true, s2)
-       else if b =? 102 then let^ s2 := parse_ident E lit_alse_q s1 in TOk (DBool false, s2)
+      (if b =? 116 then let^ s2 := parse_ident E lit_rue_q (discard s1) in TOk (DBool true, s2)
+       else if b =? 102 then let^ s2 := parse_ident E lit_alse_q (discard s1) in TOk (DBool false, s2)
        else let^ (_, s2) := parse_str E s1 in TUnpos MInvalidType s2)
   end.
 
